@@ -375,6 +375,9 @@ func (x *Exec) eval(sx *SX, env *Env) Val {
 				extra += " :pattern (" + strings.Join(ps, " ") + ")"
 			}
 		}
+		if extra == "" && head == "forall" && len(args[0].List) == 1 {
+			extra = framePatterns(body.S, ne.vars[args[0].List[0].List[0].Atom].S)
+		}
 		if extra != "" {
 			return Val{S: fmt.Sprintf("(%s (%s) (! %s%s))", head, strings.Join(binds, " "), body.S, extra), T: types.Typ[types.Bool]}
 		}
@@ -848,4 +851,61 @@ func bodyPos(fn *ssa.Function) token.Pos {
 		return fd.Body.Lbrace + 1
 	}
 	return fn.Pos()
+}
+
+
+// framePatterns: a frame-shaped quantifier (forall o. born(o) < t => H'[o] = H[o]) must not be triggered by the
+// allocation-time term born(o): every reference of the path would instantiate every frame, and the datatype theory
+// then produces field terms whose own well-formedness facts produce new references (a matching loop). For one-variable
+// quantifiers whose body mentions born(v), the heap reads indexed by v are given as the (alternative) patterns.
+func framePatterns(body, v string) string {
+	if !strings.Contains(body, "(born "+v+")") {
+		return ""
+	}
+	sx, err := parseSX(body)
+	if err != nil {
+		return ""
+	}
+	seen := map[string]bool{}
+	var pats []string
+	var mentions func(t *SX) bool
+	mentions = func(t *SX) bool {
+		if !t.IsL {
+			return t.Atom == v
+		}
+		for _, c := range t.List {
+			if mentions(c) {
+				return true
+			}
+		}
+		return false
+	}
+	var walk func(t *SX)
+	walk = func(t *SX) {
+		if !t.IsL {
+			return
+		}
+		if t.Head() == "select" && len(t.List) == 3 && !t.List[2].IsL && t.List[2].Atom == v && !mentions(t.List[1]) {
+			k := t.String()
+			for _, bad := range []string{"(ite ", "(and ", "(or ", "(not ", "(= ", "(=> ", "(< ", "(<= ", "(>= ", "(> ", "(let "} {
+				if strings.Contains(k, bad) {
+					return // not usable as a pattern
+				}
+			}
+			if !seen[k] {
+				seen[k] = true
+				pats = append(pats, k)
+			}
+			return
+		}
+		for _, c := range t.List {
+			walk(c)
+		}
+	}
+	walk(sx)
+	out := ""
+	for _, p := range pats {
+		out += " :pattern (" + p + ")"
+	}
+	return out
 }
